@@ -25,6 +25,7 @@
 -/
 import KmipModel.Gen.Schema
 import KmipModel.Lemmas.PlanRoundtrip18
+import KmipModel.Lemmas.PlanExamples
 namespace Kmip.C01
 open Kmip
 
@@ -106,6 +107,21 @@ theorem encode_items_exact (S : Schema) (n : Nat) (fs : List Field) (vs : List V
       ∧ PartsOK S n fs vs ver parts ver' :=
   encode_items_exact_aux S n fs vs ver items ver' h
 
+/-- "nothing dropped": the field loop of a reflectively decoded structure reads back ALL the items the
+    encoder emitted for it — the cursor ends on the empty list, no item is left unread (the Go struct
+    decoder would silently drop unread trailing children) — and returns the normalised field values.
+    (`encode_items_exact` above only restates which part each field contributes — it is the model's
+    definition, tied to the code by the byte-for-byte correspondence; this statement and the impl-side
+    oracle `every-item-matters` are what say that each emitted item is content of the message.) -/
+theorem decode_consumes_all (S : Schema) (hU : S.unambiguous = true) (n : Nat) (fs : List Field)
+    (vs : List Val) (ver : Option Ver) (vs' : List Val) (ver' : Option Ver) (items : List Item)
+    (hf : ∀ f ∈ fs, S.fieldOK f = true) (hu : unamb fs = true)
+    (hn : normFields S n fs vs ver = some (vs', ver'))
+    (he : encFields S n fs vs ver = .ok (items, ver')) (hr : Item.AllInRange items) :
+    ∀ fd, Val.depthList vs ≤ fd →
+      decFields S fd fs (Cur.of (items.map Item.raw)) ver = .ok (vs', Cur.of [], ver') :=
+  ((pall S hU n).fd fs vs ver vs' ver' items hf hu hn he).2 hr
+
 /-- every item the encoder emits for a (conforming) value carries the tag it was asked to use, a
     definite kind emits exactly one item, and `decK` reads the items back whatever follows them
     (stage 2/3 in one statement, for every kind, fuel and version cell). -/
@@ -126,6 +142,108 @@ theorem roundtrip_kind (S : Schema) (hU : S.unambiguous = true) (n : Nat) (k : K
   rcases hnc with hk | hne
   · exact Or.inl (by simp [emitsOne, hk])
   · exact Or.inr hne
+
+
+/-! ### The fuel of the executable model is not a bound on the messages -/
+
+/-- the conformance walk and the encoder never change their answer when given more fuel: the constant
+    `marshalFuel` only decides WHETHER the executable model reaches the end of a value, never WHAT it
+    computes. -/
+theorem normK_fuel_irrelevant (S : Schema) (n m : Nat) (hnm : n ≤ m) (k : Kind) (tag : Nat) (v : Val)
+    (ver : Option Ver) (r : Val × Option Ver) (h : normK S n k tag v ver = some r) :
+    normK S m k tag v ver = some r :=
+  normK_mono S hnm h
+
+theorem marshal_fuel_irrelevant (S : Schema) (n m : Nat) (hnm : n ≤ m) (d tag : Nat) (v : Val) (bs : Bytes)
+    (h : marshalWith S n d tag v = .ok bs) : marshalWith S m d tag v = .ok bs :=
+  marshalWith_mono S hnm h
+
+/-- `marshal` / `Conforms` are the instances at the model's executable fuel. -/
+theorem marshal_is_marshalWith (S : Schema) (d tag : Nat) (v : Val) :
+    marshal S d tag v = marshalWith S marshalFuel d tag v := rfl
+
+/-- what the constant excludes, exactly: `Conforms` holds iff the value is well-formed at some fuel
+    `≤ marshalFuel` (= 100000). -/
+theorem conforms_iff_bounded (S : Schema) (hU : S.unambiguous = true) (d tag : Nat) (v : Val) :
+    Conforms S d tag v ↔ ∃ n, n ≤ marshalFuel ∧ ConformsAt S n d tag v :=
+  ⟨fun h => ⟨marshalFuel, Nat.le_refl _, (conforms_iff_conformsAt S d tag v).1 h⟩,
+   fun ⟨_, hn, h⟩ => (conforms_iff_conformsAt S d tag v).2 (h.mono hU hn)⟩
+
+/-- C01 (main, no fuel constant). For every schema satisfying the structural condition and every value
+    that is well-formed for SOME fuel of the walk (`WellFormedValue`: the walk is structurally recursive
+    on the value, so this is every value of the right shape, whatever its batch length, slice lengths
+    and nesting depth): there are bytes `bs` and a value `v'` equal in content to `v` such that, for
+    every sufficiently large encoder fuel, the encoder maps both `v` and `v'` to `bs` and `v'` is the
+    normal form of both; and for every decoder fuel `≥ v.depth` the decoder maps `bs` to `v'`. -/
+theorem roundtrip_unbounded (S : Schema) (hU : S.unambiguous = true) (d tag : Nat) (v : Val)
+    (h : WellFormedValue S d tag v) :
+    ∃ (bs : Bytes) (v' : Val), ContentEq v v'
+      ∧ (∃ n0, ∀ n, n0 ≤ n →
+          marshalWith S n d tag v = .ok bs ∧ marshalWith S n d tag v' = .ok bs
+          ∧ (normTopAt S n d tag v).map Prod.fst = some v'
+          ∧ (normTopAt S n d tag v').map Prod.fst = some v')
+      ∧ ∀ fd, v.depth ≤ fd → unmarshalFuel S fd d tag bs = .ok v' := by
+  obtain ⟨n0, hwf, hir⟩ := h
+  cases hn : normTopAt S n0 d tag v with
+  | none => rw [hn] at hwf; contradiction
+  | some p =>
+    obtain ⟨v', w⟩ := p
+    obtain ⟨items, _, hm, hm', hn', hu⟩ := roundtrip_core_at S hU n0 d tag v v' w hn hir
+    refine ⟨encList items, v', normTopAt_content S n0 d tag v v' w hn, ⟨n0, ?_⟩, hu⟩
+    intro n hle
+    exact ⟨marshalWith_mono S hle hm, marshalWith_mono S hle hm',
+      by rw [normTopAt_mono S hle hn]; rfl, by rw [normTopAt_mono S hle hn']; rfl⟩
+
+/-- every `Conforms` value is a `WellFormedValue`. -/
+theorem conforms_wellFormedValue (S : Schema) (d tag : Nat) (v : Val) (h : Conforms S d tag v) :
+    WellFormedValue S d tag v :=
+  ⟨marshalFuel, (conforms_iff_conformsAt S d tag v).1 h⟩
+
+/-- the round trip at any fixed encoder fuel `n` (the executable `roundtrip` is `n = marshalFuel`). -/
+theorem roundtrip_at (S : Schema) (hU : S.unambiguous = true) (n d tag : Nat) (v : Val)
+    (hc : ConformsAt S n d tag v) :
+    ∃ bs v', normTopAt S n d tag v = some v'
+      ∧ marshalWith S n d tag v = .ok bs
+      ∧ (∀ fd, v.depth ≤ fd → unmarshalFuel S fd d tag bs = .ok v'.1)
+      ∧ marshalWith S n d tag v'.1 = .ok bs := by
+  obtain ⟨hwf, hir⟩ := hc
+  cases hn : normTopAt S n d tag v with
+  | none => rw [hn] at hwf; contradiction
+  | some p =>
+    obtain ⟨v', w⟩ := p
+    obtain ⟨items, _, hm, hm', _, hu⟩ := roundtrip_core_at S hU n d tag v v' w hn hir
+    exact ⟨encList items, (v', w), rfl, hm, hu, hm'⟩
+
+/-! ### The bytes are well-formed TTLV (composition with C03) -/
+
+/-- the encoding of a conforming value is ONE item, and the independent strict specification parser of
+    C03 (`specDecode`, which mentions neither the writer nor the reader) reads it back. -/
+theorem encoding_is_strict_ttlv (S : Schema) (hU : S.unambiguous = true) (d tag : Nat) (v : Val)
+    (hc : Conforms S d tag v) :
+    ∃ it : Item, marshal S d tag v = .ok (enc it) ∧ it.InRange ∧ it.tag = topTag S d tag
+      ∧ specDecode (enc it) = some it := by
+  obtain ⟨hwf, hir⟩ := hc
+  cases hn : normTop S d tag v with
+  | none => rw [hn] at hwf; contradiction
+  | some p =>
+    obtain ⟨v', w⟩ := p
+    obtain ⟨items, he, hm, _⟩ := roundtrip_core S hU d tag v v' w hn hir
+    unfold normTop at hn
+    obtain ⟨hcnd, hnk⟩ := ite_eq_some hn
+    simp only [Bool.and_eq_true] at hcnd
+    obtain ⟨items2, he2, _, _, ht, hl, _⟩ := (pall S hU marshalFuel).k _ _ _ _ _ _ hnk
+    rw [he] at he2
+    simp only [Res.ok.injEq, Prod.mk.injEq] at he2
+    obtain ⟨it, hit⟩ := list_len1 (hl (dynValOk_emitsOne hcnd.1))
+    rw [← he2.1] at hit
+    subst hit
+    have hr : it.InRange := ((Item.allInRange_singleton it).1 (hir _ _ he))
+    refine ⟨it, by rw [hm]; simp [encList], hr, ?_, ?_⟩
+    · exact ht it (by rw [← he2.1]; exact List.mem_singleton.2 rfl)
+    · have hs := size_le_length_aux it
+      have := specParse_enc_aux it hr ((enc it).length + 1) (by omega) []
+      rw [List.append_nil] at this
+      simp [specDecode, this]
 
 /-! ### The regenerated schema -/
 
@@ -149,6 +267,13 @@ theorem roundtrip_response (v : Val) (hc : Conforms Gen.schema Gen.responseMessa
 
 /-! ### Non-vacuity -/
 
+/-- dynamic type ids are looked up in the regenerated schema, not written down: renumbering `Gen.schema`
+    does not disturb the examples. -/
+def dReq (op : Nat) : Nat := Gen.schema.payloadDyn op false
+def dResp (op : Nat) : Nat := Gen.schema.payloadDyn op true
+def dObj (ot : Nat) : Nat := (Gen.schema.objectDyn ot).getD 0
+def dAttr (name : Bytes) : Nat := Gen.schema.attrDyn name
+
 /-- RequestHeader, protocol version 1.2, BatchCount 2, everything else absent. -/
 def exHeader : Val := .struct [
   .struct [.int 1, .int 2], .int 0, .text [], .text [], .ptr none, .ptr none, .list [], .ptr none,
@@ -156,12 +281,13 @@ def exHeader : Val := .struct [
 
 /-- a Get request (operation 0x0A) for "id", with UniqueBatchItemID 0x01. -/
 def exGet : Val := .struct [.int 0xA, .bytes (some [1]),
-  .iface (some (13, .ptr (some (.struct [.text [0x69, 0x64], .int 0, .int 0, .int 0, .ptr none])))),
+  .iface (some (dReq 0xA, .ptr (some (.struct [.text [0x69, 0x64], .int 0, .int 0, .int 0, .ptr none])))),
   .ptr none]
 
 /-- an unknown operation (0x99) whose payload is kept as an opaque structure. -/
 def exUnknown : Val := .struct [.int 0x99, .bytes none,
-  .iface (some (57, .ptr (some (.struct [.anyStruct [Item.int 0x540001 7, Item.text 0x540002 [0x78]]])))),
+  .iface (some (Gen.schema.unknownPayloadDyn,
+    .ptr (some (.struct [.anyStruct [Item.int 0x540001 7, Item.text 0x540002 [0x78]]])))),
   .ptr none]
 
 def exMsg : Val := .ptr (some (.struct [exHeader, .list [exGet, exUnknown]]))
@@ -171,8 +297,8 @@ def exMsg : Val := .ptr (some (.struct [exHeader, .list [exGet, exUnknown]]))
 def exResp : Val := .ptr (some (.struct [
   .struct [.struct [.int 1, .int 4], .int 1700000000, .ptr none, .list [], .text [0x63], .text [], .int 1],
   .list [.struct [.int 0xA, .bytes (some [1]), .int 0, .int 0, .text [], .bytes none,
-    .iface (some (14, .ptr (some (.struct [.int 2, .text [0x69, 0x64],
-      .iface (some (59, .ptr (some (.struct [
+    .iface (some (dResp 0xA, .ptr (some (.struct [.int 2, .text [0x69, 0x64],
+      .iface (some (dObj 2, .ptr (some (.struct [
         .struct [.int 1, .int 0, .ptr (some (.struct [.ptr (some (.bytes (some [1, 2, 3]))), .ptr none])),
           .int 3, .int 256, .ptr none]]))))])))),
     .ptr none]]]))
@@ -184,6 +310,115 @@ theorem exMsg_conforms : Conforms Gen.schema Gen.requestMessageDyn 0 exMsg :=
 set_option maxRecDepth 100000 in
 theorem exResp_conforms : Conforms Gen.schema Gen.responseMessageDyn 0 exResp :=
   conforms_of_checks _ _ _ _ (by decide +kernel) (by decide +kernel)
+
+
+/-! ### Non-vacuity on the hand-written codecs with context-dependent dynamic types -/
+
+/-- a 3-item request batch at version 1.3 with a credential (union-like CredentialValue): Register of a
+    PrivateKey in the TransparentRSAPrivateKey format — modulus 2^64+13 (needs a sign-padding block),
+    NEGATIVE private exponent −129, public exponent 65537, a Cryptographic Usage Mask attribute inside
+    the key value — with a template holding an indexed Name attribute and a custom `x-custom`
+    attribute (a generic value); a Locate with an Object Type attribute; an unknown operation 0x99. -/
+def exRegister : Val :=
+  .ptr (some (.struct [.struct [.struct [.int 1, .int 3], .int 0, .text [], .text [], .ptr none, .ptr none,
+    .list [], .ptr (some (.struct [.struct [.int 1, .struct [.ptr (some (.struct [.text [0x75], .text
+    [0x70]])), .ptr none, .ptr none]], .list []])), .int 0, .ptr none, .ptr none, .int 3], .list [.struct
+    [.int 3, .bytes (some [0x01]), .iface (some (dReq 3, .ptr (some (.struct [.int 4, .struct [.list [],
+    .list [.struct [.text [0x4E, 0x61, 0x6D, 0x65], .ptr (some (.int 1)), .iface (some (dAttr [0x4E, 0x61,
+    0x6D, 0x65], .struct [.text [0x6B], .int 1]))], .struct [.text [0x78, 0x2D, 0x63, 0x75, 0x73, 0x74,
+    0x6F, 0x6D], .ptr none, .iface (some (Gen.schema.valueDyn, .any (some (Item.int T.attributeValue
+    (-7)))))]]], .iface (some (dObj 4, .ptr (some (.struct [.struct [.int 10, .int 0, .ptr (some (.struct
+    [.ptr none, .ptr (some (.struct [.struct [.ptr none, .ptr none, .ptr (some (.struct [.big
+    (18446744073709551629), .ptr (some (.big (-129))), .ptr (some (.big (65537))), .ptr none, .ptr none,
+    .ptr none, .ptr none, .ptr none])), .ptr none, .ptr none, .ptr none, .ptr none, .ptr none], .list
+    [.struct [.text [0x43, 0x72, 0x79, 0x70, 0x74, 0x6F, 0x67, 0x72, 0x61, 0x70, 0x68, 0x69, 0x63, 0x20,
+    0x55, 0x73, 0x61, 0x67, 0x65, 0x20, 0x4D, 0x61, 0x73, 0x6B], .ptr none, .iface (some (dAttr [0x43, 0x72,
+    0x79, 0x70, 0x74, 0x6F, 0x67, 0x72, 0x61, 0x70, 0x68, 0x69, 0x63, 0x20, 0x55, 0x73, 0x61, 0x67, 0x65,
+    0x20, 0x4D, 0x61, 0x73, 0x6B], .int 1))]]]))])), .int 4, .int 64, .ptr none]]))))])))), .ptr none],
+    .struct [.int 8, .bytes (some [0x02]), .iface (some (dReq 8, .ptr (some (.struct [.int 5, .int 0, .int
+    0, .int 0, .list [.struct [.text [0x4F, 0x62, 0x6A, 0x65, 0x63, 0x74, 0x20, 0x54, 0x79, 0x70, 0x65],
+    .ptr none, .iface (some (dAttr [0x4F, 0x62, 0x6A, 0x65, 0x63, 0x74, 0x20, 0x54, 0x79, 0x70, 0x65], .int
+    2))]]])))), .ptr none], .struct [.int 153, .bytes (some [0x03]), .iface (some
+    (Gen.schema.unknownPayloadDyn, .ptr (some (.struct [.anyStruct []])))), .ptr none]]]))
+
+/-- a response at version 1.4: an Export response (object type, identifier, attribute list, then a
+    SymmetricKey whose dynamic type is decided by the object type) and a failed Get (status 1, reason 1,
+    message, no payload). -/
+def exExport : Val :=
+  .ptr (some (.struct [.struct [.struct [.int 1, .int 4], .int 1700000000, .ptr none, .list [], .text [],
+    .text [], .int 2], .list [.struct [.int 43, .bytes (some [0x01]), .int 0, .int 0, .text [], .bytes none,
+    .iface (some (dResp 43, .ptr (some (.struct [.int 2, .text [0x69, 0x64], .list [.struct [.text [0x53,
+    0x74, 0x61, 0x74, 0x65], .ptr none, .iface (some (dAttr [0x53, 0x74, 0x61, 0x74, 0x65], .int 2))]],
+    .iface (some (dObj 2, .ptr (some (.struct [.struct [.int 1, .int 0, .ptr (some (.struct [.ptr none, .ptr
+    (some (.struct [.struct [.ptr (some (.bytes (some [0x01, 0x02, 0x03]))), .ptr none, .ptr none, .ptr
+    none, .ptr none, .ptr none, .ptr none, .ptr none], .list []]))])), .int 3, .int 24, .ptr
+    none]]))))])))), .ptr none], .struct [.int 10, .bytes (some [0x02]), .int 1, .int 1, .text [0x6E, 0x6F],
+    .bytes none, .iface none, .ptr none]]]))
+
+/-- an Import request at 1.4 (optional ReplaceExisting / KeyWrapType before the attribute list; the object
+    type is found in the first `Object Type` attribute). -/
+def exImport : Val :=
+  .ptr (some (.struct [.struct [.struct [.int 1, .int 4], .int 0, .text [], .text [], .ptr none, .ptr none,
+    .list [], .ptr none, .int 0, .ptr none, .ptr none, .int 1], .list [.struct [.int 42, .bytes none, .iface
+    (some (dReq 42, .ptr (some (.struct [.text [0x69, 0x64], .bool true, .int 1, .list [.struct [.text
+    [0x4F, 0x62, 0x6A, 0x65, 0x63, 0x74, 0x20, 0x54, 0x79, 0x70, 0x65], .ptr none, .iface (some (dAttr
+    [0x4F, 0x62, 0x6A, 0x65, 0x63, 0x74, 0x20, 0x54, 0x79, 0x70, 0x65], .int 2))]], .iface (some (dObj 2,
+    .ptr (some (.struct [.struct [.int 1, .int 0, .ptr (some (.struct [.ptr none, .ptr (some (.struct
+    [.struct [.ptr (some (.bytes (some [0x01, 0x02, 0x03]))), .ptr none, .ptr none, .ptr none, .ptr none,
+    .ptr none, .ptr none, .ptr none], .list []]))])), .int 3, .int 24, .ptr none]]))))])))), .ptr none]]]))
+
+/-- encoded lengths of the three big integers of `exRegister`. -/
+def exBigLens : BigLens := [(18446744073709551629, 16), (-129, 8), (65537, 8)]
+
+theorem exBigLens_sound : exBigLens.Sound := by
+  intro p hp
+  simp only [exBigLens, List.mem_cons, List.mem_nil_iff, or_false] at hp
+  rcases hp with rfl | rfl | rfl
+  · show (encodeBig 18446744073709551629).length = 16
+    rw [encodeBig_pos _ (by decide)]
+    simp [posPad, natToBytesBE, padForLen]
+  · show (encodeBig (-129)).length = 8
+    rw [encodeBig_neg _ (by decide)]
+    simp [negBody, negPad, natToBytesBE, negEncLE, padForLen]
+  · show (encodeBig 65537).length = 8
+    rw [encodeBig_pos _ (by decide)]
+    simp [posPad, natToBytesBE, padForLen]
+
+set_option maxRecDepth 100000 in
+theorem exRegister_conforms : Conforms Gen.schema Gen.requestMessageDyn 0 exRegister :=
+  conforms_of_checksW exBigLens exBigLens_sound _ _ _ _ (by decide +kernel) (by decide +kernel)
+
+set_option maxRecDepth 100000 in
+theorem exExport_conforms : Conforms Gen.schema Gen.responseMessageDyn 0 exExport :=
+  conforms_of_checks _ _ _ _ (by decide +kernel) (by decide +kernel)
+
+set_option maxRecDepth 100000 in
+theorem exImport_conforms : Conforms Gen.schema Gen.requestMessageDyn 0 exImport :=
+  conforms_of_checks _ _ _ _ (by decide +kernel) (by decide +kernel)
+
+example := roundtrip_request exRegister exRegister_conforms
+example := roundtrip_response exExport exExport_conforms
+example := roundtrip_request exImport exImport_conforms
+
+set_option maxRecDepth 100000 in
+/-- the fuel the examples need is tiny compared with `marshalFuel`: `exRegister` is already well-formed
+    at fuel 64 (and, by `ConformsAt.mono`, at every larger one). -/
+theorem exRegister_conformsAt_64 : ConformsAt Gen.schema 64 Gen.requestMessageDyn 0 exRegister :=
+  conformsAt_of_checks exBigLens exBigLens_sound _ _ _ _ _ (by decide +kernel) (by decide +kernel)
+
+example : WellFormedValue Gen.schema Gen.requestMessageDyn 0 exRegister := ⟨64, exRegister_conformsAt_64⟩
+
+set_option maxRecDepth 100000 in
+/-- … and NOT at fuel 10: the fuel hypothesis is a real one at small values. -/
+example : (normTopAt Gen.schema 10 Gen.requestMessageDyn 0 exRegister).isSome = false := by decide +kernel
+
+set_option maxRecDepth 100000 in
+/-- a value outside `Conforms` (documented restriction): the same custom attribute holding a Go `int32`
+    instead of a `ttlv.Value` — the decoder returns a `ttlv.Value`, so the Go type is not preserved. -/
+example : (normK Gen.schema 50 (.struct (attributeId Gen.schema)) T.attr
+    (.struct [.text [0x78, 0x2D, 0x63], .ptr none,
+      .iface (some (dAttr [0x43, 0x72, 0x79, 0x70, 0x74, 0x6F, 0x67, 0x72, 0x61, 0x70, 0x68, 0x69, 0x63, 0x20,
+        0x4C, 0x65, 0x6E, 0x67, 0x74, 0x68], .int (-7)))]) none).isSome = false := by decide +kernel
 
 /-- the hypotheses of `roundtrip_request` are satisfiable by a non-trivial message… -/
 example : ∃ bs, marshal Gen.schema Gen.requestMessageDyn 0 exMsg = .ok bs
